@@ -1,0 +1,43 @@
+//go:build verif
+
+package index
+
+import (
+	"sync/atomic"
+
+	v1 "github.com/lindb/lindb/index/v1"
+	"github.com/lindb/lindb/kv"
+)
+
+// Verification fault seam for property C09: a failing flush of the metricSchemaStore (the kv family
+// commit of the schema family fails). Uses the package's own test seam newMetricSchemaFlusher.
+
+var verifSchemaFlushFaults atomic.Int32
+
+// verifFaultySchemaFlusher fails Close() — i.e. the kv family commit — without committing anything.
+type verifFaultySchemaFlusher struct {
+	v1.MetricSchemaFlusher
+}
+
+func (f *verifFaultySchemaFlusher) Close() error { return verifFlushFault{} }
+
+// VerifFailNextSchemaFlush arms the fault: the next n metricSchemaStore flushes that reach the kv
+// flusher fail at the kv family commit.
+func VerifFailNextSchemaFlush(n int) {
+	verifSchemaFlushFaults.Store(int32(n))
+	newMetricSchemaFlusher = func(kvFlusher kv.Flusher) (v1.MetricSchemaFlusher, error) {
+		inner, err := v1.NewMetricSchemaFlusher(kvFlusher)
+		if err != nil {
+			return nil, err
+		}
+		for {
+			left := verifSchemaFlushFaults.Load()
+			if left <= 0 {
+				return inner, nil
+			}
+			if verifSchemaFlushFaults.CompareAndSwap(left, left-1) {
+				return &verifFaultySchemaFlusher{MetricSchemaFlusher: inner}, nil
+			}
+		}
+	}
+}
